@@ -30,10 +30,12 @@ class RAM(MemoryType):
 
     def read(self, address, size):
         chunk = self.memory_array[address:address + size]
-        return chunk
+        # an access running past the end of the device reads the missing bytes as zero
+        return chunk + bytes(size - len(chunk))
 
     def write(self, address, size, value):
-        self.memory_array[address:address + size] = value
+        # never grow the device: bytes past its end are dropped
+        self.memory_array[address:address + size] = value[:max(len(self.memory_array) - address, 0)]
 
 
 MEMORY_TYPE_DICT = {
